@@ -147,6 +147,18 @@ def m_recv_poll(it, a, ty, callee):
     return Adt(POLL, 0, [opt_some(ch.fields[0])])
 
 
+def m_poll_recv(it, a, ty, callee):
+    """Receiver::poll_recv: Ready(Some(v)) when a message is queued, otherwise Pending (sender drops are not modelled, so the
+    `None` of a channel whose senders are all gone does not occur)"""
+    p = _chan(it, a[0])
+    ch = it.load(p)
+    POLL = 'std::task::Poll'
+    if not ch.fields:
+        return Adt(POLL, 1, ())
+    it.store(p, Channel(ch.fields[1:], ch.cap, ch.closed))
+    return Adt(POLL, 0, [opt_some(ch.fields[0])])
+
+
 def m_try_recv(it, a, ty, callee):
     p = _chan(it, a[0])
     ch = it.load(p)
@@ -291,6 +303,7 @@ def install(it):
     A(r'tokio::sync::mpsc::Sender::<.*>::try_send', m_try_send)
     A(r'tokio::sync::mpsc::Sender::<.*>::send', m_send)
     A(r'tokio::sync::mpsc::Receiver::<.*>::try_recv', m_try_recv)
+    A(r'tokio::sync::mpsc::Receiver::<.*>::poll_recv', m_poll_recv)
     A(r'tokio::sync::mpsc::Receiver::<.*>::recv', m_recv)
     A(r'<\{async fn body of tokio::sync::mpsc::Receiver<.*>::recv\(\)\} as (?:std::future|futures)::Future>::poll', m_recv_poll)
     A(r'<tokio::sync::mpsc::Sender<.*> as std::clone::Clone>::clone', m_sender_clone)
